@@ -4,12 +4,12 @@ analysed pymoca sources on the CURRENT tree.  sa/inline_helpers.py treats every 
 was extracted later and inlines it into its callers before the rules run.  Re-run after a fix: commit that adds functions."""
 import ast, glob, json, os, sys
 sys.path.insert(0, os.path.join(os.path.dirname(os.path.abspath(__file__)), ".."))
-from sa.inline_helpers import qualnames
+from sa.inline_helpers import all_qualnames
 REPO = "/repo"
 files = sorted(p[len(REPO) + 1:] for p in glob.glob(REPO + "/src/pymoca/**/*.py", recursive=True) if "/generated/" not in p) + ["tools/compiler.py"]
 out = {}
 for rel in files:
     mod = ast.parse(open(os.path.join(REPO, rel), encoding="utf-8").read())
-    out[rel] = sorted(qualnames(mod))
+    out[rel] = sorted(all_qualnames(mod))
 json.dump(out, open(os.path.join(os.path.dirname(os.path.abspath(__file__)), "..", "reference", "functions.json"), "w"), indent=0, sort_keys=True)
 print(sum(len(v) for v in out.values()), "functions in", len(out), "files")
